@@ -138,7 +138,10 @@ package directory
 //@   ensures !s.mutex.lockw && err == nil
 //@   ensures[C15] forall k uint32 {at_unlock(has(s.services, k))} :: (at_unlock(has(s.services, k)) <==> at_lock(has(s.services, k))) && (at_unlock(has(s.staging, k)) <==> at_lock(has(s.staging, k)))
 //@   ensures[C15] at_unlock(s.lastID) == at_lock(s.lastID)
-//@   call Sort#1: assert[C15] s.mutex.lockw && forall j int {list[j].ServiceId} :: 0 <= j && j < len(list) ==> has(s.services, list[j].ServiceId) && list[j].Name == s.services[list[j].ServiceId].Name
+// the listing handed out is a snapshot built in this call from the table as it is inside this critical
+// section (never a slice kept from an earlier call: that one would not follow later updates)
+//@   ensures[C15] fresh(result)
+//@   call Sort#1: assert[C15] s.mutex.lockw && forall j int {list[j].ServiceId} :: 0 <= j && j < len(list) ==> has(s.services, list[j].ServiceId) && list[j].Name == s.services[list[j].ServiceId].Name && list[j].MachineId == s.services[list[j].ServiceId].MachineId && list[j].ProcessId == s.services[list[j].ServiceId].ProcessId && list[j].SessionId == s.services[list[j].ServiceId].SessionId
 //@   loop 1:
 //@     invariant s.mutex.lockw && s.services == at_lock(s.services) && s.staging == at_lock(s.staging) && s.lastID == at_lock(s.lastID) && fresh(list) && oldarrays_unchanged(list)
-//@     invariant forall j int {list[j].ServiceId} :: 0 <= j && j < len(list) ==> has(s.services, list[j].ServiceId) && list[j].Name == s.services[list[j].ServiceId].Name
+//@     invariant forall j int {list[j].ServiceId} :: 0 <= j && j < len(list) ==> has(s.services, list[j].ServiceId) && list[j].Name == s.services[list[j].ServiceId].Name && list[j].MachineId == s.services[list[j].ServiceId].MachineId && list[j].ProcessId == s.services[list[j].ServiceId].ProcessId && list[j].SessionId == s.services[list[j].ServiceId].SessionId
